@@ -3,6 +3,8 @@
   Helper lemmas live in WS.Lemmas.{Py,NoProxy}.
 -/
 import WS.Lemmas.NoProxy
+import WS.Lemmas.B64
+import WS.Model.Proxy
 namespace WS.Props.C19
 open WS WS.Py WS.Lemmas.Py WS.Lemmas.NoProxy
 open WS.Model.NoProxy
@@ -143,5 +145,213 @@ example :
     (isNoProxyHostL "10.9.9.9".toList ["10.0.0.0/8".toList]).toOption = some true ∧
     (isNoProxyHostL "11.0.0.1".toList ["10.0.0.0/8".toList]).toOption = some false ∧
     (isNoProxyHostL "h".toList ["*".toList]).toOption = some true := by decide
+
+/-! ### which list, which proxy -/
+
+/-- **C19_list** — the effective list is the option when non-empty, else the environment's
+    (`no_proxy` before `NO_PROXY`), blanks removed, split on ",". -/
+theorem C19_list (opt : List Str) (env : Env) :
+    effectiveList opt env = Spec.NoProxy.noProxyList opt env := by
+  unfold effectiveList Spec.NoProxy.noProxyList Spec.NoProxy.entries Spec.NoProxy.envEither
+    Spec.NoProxy.envGet envGetD removeChar
+  cases opt with
+  | cons a r => simp
+  | nil =>
+    simp only [List.isEmpty_nil, if_true, ne_eq, not_true_eq_false, if_false]
+    cases h1 : env.lookup "no_proxy" with
+    | some v =>
+      simp only [Option.getD_some]
+      by_cases hv : v.filter (· != ' ') = []
+      · simp [hv]
+      · have : (v.filter (· != ' ')).isEmpty = false := by
+          cases h : v.filter (· != ' ') <;> simp_all
+        simp [hv, this]
+    | none =>
+      simp only [Option.getD_none]
+      by_cases hv : ((env.lookup "NO_PROXY").getD []).filter (· != ' ') = []
+      · simp [hv]
+      · have : (((env.lookup "NO_PROXY").getD []).filter (· != ' ')).isEmpty = false := by
+          cases h : ((env.lookup "NO_PROXY").getD []).filter (· != ' ') <;> simp_all
+        simp [hv, this]
+
+/-- **C19_exempt_env** — `_is_no_proxy_host(hostname, no_proxy)` with the list taken from the
+    option or the environment: never fails, and answers the Spec's predicate. -/
+theorem C19_exempt_env (host : Str) (opt : List Str) (env : Env) :
+    isNoProxyHost host opt env =
+      .ok (Spec.NoProxy.exempt host (Spec.NoProxy.noProxyList opt env)) := by
+  unfold isNoProxyHost
+  rw [C19_list, C19_exempt]
+
+open WS.Model.Proxy in
+/-- **C19_decision** — for all option combinations, environments and hosts, `proxy_info` +
+    `get_proxy_info` decide exactly as documented: direct when exempt; else the option's proxy
+    (PROXY error for port 0); else the URL in `http_proxy`/`https_proxy` (by scheme, lower case
+    before upper case, blanks removed); else direct. -/
+theorem C19_decision (v6ok : Str → Bool) (host : Str) (secure : Bool) (optHost : Str) (optPort : Nat)
+    (optAuth : Option (Str × Str)) (optNoProxy : List Str) (env : Env) :
+    getProxyInfo v6ok host secure (proxyInfo optHost optPort optAuth optNoProxy) env =
+      match Spec.NoProxy.decision host secure optHost optPort optAuth optNoProxy env with
+      | .direct => .ok direct
+      | .viaOption h p a => .ok ⟨some h, some p, a⟩
+      | .viaEnv v => envProxyParse v6ok v
+      | .configError => .error .proxy := by
+  unfold getProxyInfo Spec.NoProxy.decision
+  have hnp : (proxyInfo optHost optPort optAuth optNoProxy).noProxy = optNoProxy := by
+    unfold proxyInfo; split <;> rfl
+  rw [hnp, C19_exempt_env]
+  by_cases hex : Spec.NoProxy.exempt host (Spec.NoProxy.noProxyList optNoProxy env) = true
+  · simp [hex]
+  · have hex' : Spec.NoProxy.exempt host (Spec.NoProxy.noProxyList optNoProxy env) = false := by
+      simpa using hex
+    simp only [hex', Bool.false_eq_true, if_false]
+    by_cases hh : optHost = []
+    · subst hh
+      simp only [proxyInfo, List.isEmpty_nil, Bool.not_true, Bool.false_eq_true, if_false, ne_eq,
+        not_true_eq_false]
+      have henv : removeChar ' ' (envGetD env (if secure then "https_proxy" else "http_proxy")
+          (envGetD env (if secure then "HTTPS_PROXY" else "HTTP_PROXY") [])) =
+          Spec.NoProxy.envProxy secure env := by
+        unfold Spec.NoProxy.envProxy Spec.NoProxy.envEither Spec.NoProxy.envGet envGetD removeChar
+        cases secure
+        · simp only [Bool.false_eq_true, if_false]
+          cases env.lookup "http_proxy" <;> simp
+        · simp only [if_true]
+          cases env.lookup "https_proxy" <;> simp
+      rw [henv]
+      by_cases hv : Spec.NoProxy.envProxy secure env = []
+      · simp [hv]
+      · have : (Spec.NoProxy.envProxy secure env).isEmpty = false := by
+          cases h : Spec.NoProxy.envProxy secure env <;> simp_all
+        simp [hv, this]
+    · have hne : optHost.isEmpty = false := by cases optHost <;> simp_all
+      simp only [proxyInfo, hne, Bool.not_false, if_true, ne_eq, hh, not_false_eq_true]
+      by_cases hp : optPort = 0
+      · simp [hp]
+      · simp [hp]
+
+/-- the Spec's one-line summary agrees with its case analysis. -/
+theorem C19_useProxy (host : Str) (secure : Bool) (optHost : Str) (optPort : Nat)
+    (optAuth : Option (Str × Str)) (optNoProxy : List Str) (env : Env) :
+    Spec.NoProxy.useProxy host secure optHost optNoProxy env = true ↔
+      Spec.NoProxy.decision host secure optHost optPort optAuth optNoProxy env ≠ .direct := by
+  unfold Spec.NoProxy.useProxy Spec.NoProxy.decision
+  by_cases hex : Spec.NoProxy.exempt host (Spec.NoProxy.noProxyList optNoProxy env) = true
+  · simp [hex]
+  · by_cases hh : optHost = [] <;> by_cases hv : Spec.NoProxy.envProxy secure env = [] <;>
+      by_cases hp : optPort = 0 <;> simp [hex, hh, hv, hp]
+
+/-! ### the tunnel -/
+
+open WS.Model.Proxy in
+/-- generated fact (T): the status `_tunnel` waits for, and the port used when the proxy URL
+    names none. -/
+theorem tunnel_consts : Gen.tunnelOkStatus = 200 ∧ Gen.proxyDefaultPort = 80 := by decide
+
+open WS.Model.Proxy in
+/-- **C19_gate** — for every reply (any bytes): `_tunnel` proceeds iff `read_headers` returns
+    status 200; everything else — another status, a malformed head, end of stream, an internal
+    error inside `read_headers` — is reported as PROXY. -/
+theorem C19_gate (reply : Str) :
+    (tunnel reply = .ok () ↔ readStatus reply = .ok (some 200)) ∧
+    (∀ e, tunnel reply = .error e → e = .proxy) := by
+  unfold tunnel
+  rw [tunnel_consts.1]
+  cases h : readStatus reply with
+  | error e => simp
+  | ok st =>
+    by_cases hs : st = some 200
+    · subst hs; simp
+    · have : (st == some 200) = false := by simpa using hs
+      simp [this, hs]
+
+open WS.Model.Proxy in
+/-- the whole of `connect()` once the URL parsed, a decision was taken and a socket was opened. -/
+theorem connect_eq (v6ok : Str → Bool) (url : Str) (timeout : Nat) (sockopt : List String)
+    (p : ProxyInfo) (env : Env) (w : World) (t : Net.Target) (c : Choice) (o : Net.Outcome)
+    (outs : List Net.Outcome) (i : Nat) (evs : List Net.Ev)
+    (hp : Model.Url.parseUrl v6ok url = .ok t) (hc : getProxyInfo v6ok t.host t.secure p env = .ok c)
+    (ha : w.addrs = some (o :: outs))
+    (hd : Model.OpenSocket.openSocket timeout sockopt (o :: outs) = (.ok i, evs)) :
+    connect v6ok url timeout sockopt p env w =
+      let tgt := addrTarget t.host t.port c
+      let tr := CEv.resolve tgt.1 tgt.2.1 :: evs.map .sock
+      if tgt.2.2 then
+        match tunnel w.proxyReply with
+        | .error e => (.error e, tr ++ [.send i (tunnelRequest t.host t.port c.auth)] ++ [.sock (.close i)])
+        | .ok () =>
+          (.ok (i, t), tr ++ [.send i (tunnelRequest t.host t.port c.auth)]
+            ++ (if t.secure then [.tls i t.host] else []))
+      else (.ok (i, t), tr ++ (if t.secure then [.tls i t.host] else [])) := by
+  unfold connect
+  simp only [hp, hc, ha, hd]
+  rcases hat : addrTarget t.host t.port c with ⟨rh, rp, nt⟩
+  cases nt
+  · cases hs : t.secure <;> simp
+  · simp only [if_true]
+    cases ht : tunnel w.proxyReply with
+    | error e => simp
+    | ok u => cases hs : t.secure <;> simp
+
+open WS.Model.Proxy in
+/-- **C19_gate_connect** — a proxy reply that is not a 200 ends `connect()` with PROXY: the
+    socket is closed, and nothing was written after the CONNECT request (no TLS, no handshake). -/
+theorem C19_gate_connect (v6ok : Str → Bool) (url : Str) (timeout : Nat) (sockopt : List String)
+    (p : ProxyInfo) (env : Env) (w : World) (t : Net.Target) (c : Choice) (o : Net.Outcome)
+    (outs : List Net.Outcome) (i : Nat) (evs : List Net.Ev) (ph : Str)
+    (hp : Model.Url.parseUrl v6ok url = .ok t) (hc : getProxyInfo v6ok t.host t.secure p env = .ok c)
+    (ha : w.addrs = some (o :: outs))
+    (hd : Model.OpenSocket.openSocket timeout sockopt (o :: outs) = (.ok i, evs))
+    (hph : c.host = some ph) (hne : ph ≠ [])
+    (hbad : readStatus w.proxyReply ≠ .ok (some 200)) :
+    ∃ pp, connect v6ok url timeout sockopt p env w =
+      (.error .proxy, CEv.resolve ph pp :: evs.map .sock
+        ++ [.send i (tunnelRequest t.host t.port c.auth)] ++ [.sock (.close i)]) := by
+  rw [connect_eq v6ok url timeout sockopt p env w t c o outs i evs hp hc ha hd]
+  have hne' : ph.isEmpty = false := by cases ph <;> simp_all
+  have hg := C19_gate w.proxyReply
+  cases ht : tunnel w.proxyReply with
+  | ok u => exact absurd (hg.1.mp (by rw [ht])) hbad
+  | error e =>
+    have := hg.2 e ht; subst this
+    simp only [addrTarget, hph, hne', Bool.false_eq_true, if_false, if_true]
+    exact ⟨_, rfl⟩
+
+open WS.Model.Proxy in
+/-- **C19_order** — through a proxy that answers 200: the proxy's address is what is resolved
+    and dialled, the CONNECT request (naming the origin's host and port) is the first thing
+    written, TLS (for wss) comes after it and is addressed to the origin's host name, and the
+    handshake target handed back is the origin (host, port, resource). -/
+theorem C19_order (v6ok : Str → Bool) (url : Str) (timeout : Nat) (sockopt : List String)
+    (p : ProxyInfo) (env : Env) (w : World) (t : Net.Target) (c : Choice) (o : Net.Outcome)
+    (outs : List Net.Outcome) (i : Nat) (evs : List Net.Ev) (ph : Str)
+    (hp : Model.Url.parseUrl v6ok url = .ok t) (hc : getProxyInfo v6ok t.host t.secure p env = .ok c)
+    (ha : w.addrs = some (o :: outs))
+    (hd : Model.OpenSocket.openSocket timeout sockopt (o :: outs) = (.ok i, evs))
+    (hph : c.host = some ph) (hne : ph ≠ [])
+    (hok : readStatus w.proxyReply = .ok (some 200)) :
+    ∃ pp, connect v6ok url timeout sockopt p env w =
+      (.ok (i, t), CEv.resolve ph pp :: evs.map .sock
+        ++ [.send i (tunnelRequest t.host t.port c.auth)]
+        ++ (if t.secure then [.tls i t.host] else [])) := by
+  rw [connect_eq v6ok url timeout sockopt p env w t c o outs i evs hp hc ha hd]
+  have hne' : ph.isEmpty = false := by cases ph <;> simp_all
+  have ht : tunnel w.proxyReply = .ok () := (C19_gate w.proxyReply).1.mpr hok
+  simp only [addrTarget, hph, hne', Bool.false_eq_true, if_false, if_true, ht]
+  exact ⟨_, rfl⟩
+
+open WS.Model.Proxy in
+/-- **C19_direct** — when the decision is "direct", the URL's own host and port are resolved,
+    nothing is written before the handshake, TLS (wss) is addressed to the URL's host. -/
+theorem C19_direct (v6ok : Str → Bool) (url : Str) (timeout : Nat) (sockopt : List String)
+    (p : ProxyInfo) (env : Env) (w : World) (t : Net.Target) (o : Net.Outcome)
+    (outs : List Net.Outcome) (i : Nat) (evs : List Net.Ev)
+    (hp : Model.Url.parseUrl v6ok url = .ok t) (hc : getProxyInfo v6ok t.host t.secure p env = .ok direct)
+    (ha : w.addrs = some (o :: outs))
+    (hd : Model.OpenSocket.openSocket timeout sockopt (o :: outs) = (.ok i, evs)) :
+    connect v6ok url timeout sockopt p env w =
+      (.ok (i, t), CEv.resolve t.host t.port :: evs.map .sock
+        ++ (if t.secure then [.tls i t.host] else [])) := by
+  rw [connect_eq v6ok url timeout sockopt p env w t direct o outs i evs hp hc ha hd]
+  simp [addrTarget, direct]
 
 end WS.Props.C19
